@@ -162,8 +162,27 @@ func runC10(c *ctx) error {
 		isNil := rng.Intn(15) == 0
 		if !isNil {
 			block = ordered.NewMap[string, string](size)
-			for j := 0; j < size; j++ {
-				block.Set(c10Name(rng), c10Str(rng))
+			if rng.Intn(10) == 0 {
+				// collision-heavy block: several entries whose names expand to the same name (each rename
+				// drops the previously renamed entry), then entries whose expanded names hit later literal ones
+				c.res.Hist("block.collision-heavy")
+				t1, t2 := core.Pick(rng, c10Names), core.Pick(rng, c10Names)
+				k := 3 + rng.Intn(4)
+				for j := 0; j < k; j++ {
+					block.Set(fmt.Sprintf("${ZQ%d:-%s}", j, t1), c10Str(rng))
+				}
+				block.Set("${ZQX-"+t2+"}", c10Str(rng))
+				for j := rng.Intn(3); j > 0; j-- {
+					block.Set(c10Name(rng), c10Str(rng))
+				}
+				block.Set(t2, c10Str(rng))
+				if rng.Bool() {
+					block.Set(t1, c10Str(rng))
+				}
+			} else {
+				for j := 0; j < size; j++ {
+					block.Set(c10Name(rng), c10Str(rng))
+				}
 			}
 		}
 		var entries vl.OMap
@@ -246,37 +265,53 @@ func runC10(c *ctx) error {
 		for k, v := range ref.m {
 			initial[k] = v
 		}
-		var want vl.OMap
-		collision, failed := false, false
-		origKeys := map[string]bool{}
-		for _, kv := range entries {
-			origKeys[kv.K] = true
+		// list-of-pairs spec: entries are visited top to bottom; a rename onto a name another live entry
+		// holds removes that entry (it is not visited if its turn had not come yet), as in the ordered map
+		type live struct {
+			k, v string
+			dead bool
 		}
-		seenNew := map[string]bool{}
+		var cur []*live
 		for _, kv := range entries {
-			nk, e1 := interpolate.Interpolate(ref, kv.K)
+			cur = append(cur, &live{k: kv.K, v: kv.V.(string)})
+		}
+		collision, failed := false, false
+		for idx, e := range cur {
+			if e.dead {
+				continue
+			}
+			nk, e1 := interpolate.Interpolate(ref, e.k)
 			if e1 != nil {
 				failed = true
 				break
 			}
-			nv, e2 := interpolate.Interpolate(ref, kv.V.(string))
+			nv, e2 := interpolate.Interpolate(ref, e.v)
 			if e2 != nil {
 				failed = true
 				break
 			}
-			if seenNew[nk] || (nk != kv.K && origKeys[nk]) {
-				collision = true
+			for j, o := range cur {
+				if j != idx && !o.dead && o.k == nk {
+					o.dead = true
+					collision = true
+				}
 			}
-			seenNew[nk] = true
-			want = append(want, vl.KV{K: nk, V: nv})
+			e.k, e.v = nk, nv
 			if _, exists := ref.Get(nk); !(prefer && exists) {
 				ref.Set(nk, nv)
 			}
 		}
+		var want vl.OMap
+		for _, e := range cur {
+			if !e.dead {
+				want = append(want, vl.KV{K: e.k, V: e.v})
+			}
+		}
 		desc := map[string]any{"block": fmt.Sprint(entries), "runtime": runtime, "prefer": prefer, "case_insensitive": upper}
+		if collision {
+			c.res.Hist("case.rename-collision")
+		}
 		switch {
-		case collision:
-			c.res.Hist("oracle.skipped-collision")
 		case failed:
 			c.res.Hist("case.expansion-fails")
 			if ierr == nil {
